@@ -376,6 +376,7 @@ void vh_case(vh::Ctx& c) {
     for (long i = 0; i < cap / 2 - 20; i++) ks.push_back(cap / 2 + 1 + (long)r.below((uint64_t)(N - 20 - cap / 2)));
   }
   for (long k : ks) {
+    c.heartbeat();  // one evaluation per cancellation point: progress for the driver's watchdog
     ExecutionContext ctx;
     arm(ctx, k);
     resetSchedule();
